@@ -133,6 +133,11 @@ class MinPathCover(pathmodel.AbstractPathModelDAG):
             raise ValueError(f"cover_type must be either 'node' or 'edge', not {self.cover_type}")
 
         self.G = stdag.stDAG(self.G_internal, additional_starts=additional_starts_internal, additional_ends=additional_ends_internal)
+        # The k-models build their own s-t augmentation: they must be given the (expanded) input graph
+        # and the internal lists, not the already augmented graph.
+        self.edges_to_ignore_internal = list(edges_to_ignore_internal)
+        self.additional_starts_internal = list(additional_starts_internal)
+        self.additional_ends_internal = list(additional_ends_internal)
         self.subpath_constraints = subpath_constraints_internal
         self.edges_to_ignore = self.G.source_sink_edges.union(edges_to_ignore_internal)
 
@@ -168,22 +173,26 @@ class MinPathCover(pathmodel.AbstractPathModelDAG):
                 i_solver_options["time_limit"] = self.time_limit - self.solve_time_elapsed
 
             model = kpathcover.kPathCover(
-                        G=self.G,
+                        G=self.G_internal,
                         k=i,
                         subpath_constraints=self.subpath_constraints,
                         subpath_constraints_coverage=self.subpath_constraints_coverage,
                         subpath_constraints_coverage_length=self.subpath_constraints_coverage_length,
                         length_attr=self.length_attr,
-                        elements_to_ignore=self.edges_to_ignore,
-                        additional_starts=self.additional_starts,
-                        additional_ends=self.additional_ends,
+                        elements_to_ignore=self.edges_to_ignore_internal,
+                        additional_starts=self.additional_starts_internal,
+                        additional_ends=self.additional_ends_internal,
                         optimization_options=self.optimization_options,
                         solver_options=i_solver_options,
                     )
             model.solve()
 
             if model.is_solved():
-                self._solution = model.get_solution()
+                self._solution = dict(model.get_solution())
+                if self.cover_type == "node":
+                    # express the paths in the original node names
+                    self._solution["_paths_internal"] = self._solution["paths"]
+                    self._solution["paths"] = self.G_internal.get_condensed_paths(self._solution["paths"])
                 self.set_solved()
                 self.solve_statistics = model.solve_statistics
                 self.solve_statistics["mpc_solve_time"] = time.perf_counter() - self.solve_time_start
